@@ -174,6 +174,20 @@ CHECKS["C11"] = {
     "technique": "bounded symbolic execution (CrossHair + z3): tag algebra on symbolic lists, annotation placement as a solver-enumerated choice vector",
 }
 
+CHECKS["C18"] = {
+    "category": "model_checking",
+    "text": "(Z) z3 regex theory on the three live lexer regexes: the empty string is in none of them, hence the lexer loop always "
+            "advances (termination for unbounded strings). (X1) CrossHair runs the real Lexer.__call__ on a symbolic str over all of "
+            "Unicode (len <= 2, thorough 3): terminates, tokens concatenate back. (X2) token sequences chosen by a symbolic index "
+            "vector (<= 3 tokens, symbolic gaps) and shaped templates with symbolic operand holes go through parse/select/probing: only "
+            "SyntaxError (with offset), SelectorError or the documented TypeError may be raised, and selectors that cannot match "
+            "(unknown meta-variable, !! without !, overridable without focus) must be refused by activation.",
+    "design_ref": "DESIGN.md section 4, C18",
+    "note": "In (X2) the solver only enumerates the finite choice space (strings are concrete once chosen; parse/select/probing run "
+            "natively); \\b is dropped and \\s modelled as ASCII whitespace in (Z).",
+    "technique": "z3 regex emptiness on live lexer regexes + CrossHair symbolic str through the lexer + solver-enumerated token vectors through the real parser",
+}
+
 NOT_YET = {}
 
 
